@@ -152,6 +152,12 @@ MonoHull(m, bnd) ==
 NatHull(p, bnd) ==
   FoldSet(LAMBDA m, acc : HullAdd(acc, IF m = <<>> THEN Point(p[m]) ELSE HullScale(MonoHull(m, bnd), p[m])),
           Point(Zero), DOMAIN p)
+\* the same analysis run on a message term by term as listed (repeated monomials are not merged first): the loosest
+\* result an implementation that iterates over the message's own terms can obtain
+RawHull(f, a, bnd) ==
+  LET ts == RawTerms(f) IN
+  FoldSet(LAMBDA i, acc : HullAdd(acc, IF ts[i].ids = <<>> THEN Point(RMul(a, ts[i].c)) ELSE HullScale(MonoHull(ts[i].ids, bnd), RMul(a, ts[i].c))),
+          Point(Zero), DOMAIN ts)
 
 \* value set of a linear expression with integer coefficients over all 0/1 assignments of its variables
 RECURSIVE SubsetSums(_,_)
